@@ -11,7 +11,7 @@ from harness.rank import vector_valued_commutative_factor
 from harness.sexp import dumps, loads_all
 
 PID = 'C02'
-PROPS_MODULE = ['SympdeModel.Props.C02', 'SympdeModel.Props.C02b', 'SympdeModel.Props.C02c']
+PROPS_MODULE = ['SympdeModel.Props.C02', 'SympdeModel.Props.C02b', 'SympdeModel.Props.C02c', 'SympdeModel.Props.C02d']
 EXTRA_THEOREM_MODULES = ['SympdeModel.Lemmas.Calc']
 RULE = ('random well-typed generic programs (as for C01) plus interface-operator programs, built bottom-up with the real '
         'constructors; every constructor application (operator, already built argument trees) is one case; '
@@ -185,6 +185,7 @@ def correspondence(ctx):
             c.nontrivial.add(line)
             if len(c.samples) < 6:
                 c.samples.append({'request': line[:300], 'impl': str(impl[1])[:200]})
+    importlib.import_module('harness.props.c02mat').correspondence(ctx, c)      # symbolic matrix layer (calculus/matrices.py)
     return c
 
 
@@ -317,6 +318,7 @@ def oracle(ctx, factor, seeds):
             if len(o.samples) < 4 and not isinstance(res[1], (int,)) and name in ('div', 'grad', 'laplace', 'dot'):
                 o.samples.append({'op': name, 'args': [str(a)[:120] for a in args], 'result': str(res[1])[:200]})
             check_app(o, rng, env, name, args, res[1], None)
+    importlib.import_module('harness.props.c02mat').oracle(ctx, factor, seeds, o)  # symbolic matrix layer, concrete matrices
     return o
 
 
